@@ -1488,7 +1488,13 @@ class ClientRequest(ClientRequestBase):
             # Force headers to be sent before waiting for 100-continue
             writer.send_headers()
             await writer.drain()
-            await self._continue
+            try:
+                await self._continue
+            except asyncio.CancelledError:
+                # Not a byte of the announced body has been sent: the peer still
+                # expects it, so the connection can't carry another request.
+                conn.close()
+                raise
 
         protocol = conn.protocol
         assert protocol is not None
